@@ -625,6 +625,13 @@ fn judge_final(reference: &Final, got: &Final) -> Result<(), (&'static str, Stri
     Ok(())
 }
 
+/// Opt-in (`C32_STRICT=1`), NOT part of the default verdict: also demand an event for every
+/// visit of an armed location. The statement only bounds the events from above.
+fn strict() -> bool {
+    static S: std::sync::OnceLock<bool> = std::sync::OnceLock::new();
+    *S.get_or_init(|| std::env::var("C32_STRICT").map(|v| v == "1").unwrap_or(false))
+}
+
 struct CaseReport {
     /// (key, what) of the first broken rule
     violation: Option<(String, String)>,
@@ -653,8 +660,13 @@ fn check_case(env: &Env, p: &Prog, refs: &Refs, mode: &Mode) -> CaseReport {
         let verdict = match anomaly {
             Some(a) => Err(("driver.anomaly", a)),
             None => judge_events(&refs.trace[txi], &events, &armed, single).and_then(|info| {
+                let missed = info.missed;
                 rep.info[txi] = info;
-                judge_final_vm(&refs.fin[txi], &vm, state)
+                judge_final_vm(&refs.fin[txi], &vm, state)?;
+                if strict() && missed > 0 {
+                    return Err(("strict.visit-without-event", format!("{missed} visit(s) of armed locations without a debug event (NOT part of the statement; C32_STRICT=1)")))
+                }
+                Ok(())
             }),
         };
         if let Err((rule, detail)) = verdict {
@@ -832,6 +844,7 @@ fn explore(ctx: &Ctx) {
             "breakpoints in contract B / at locations outside the enumerated set; predicates (VerifyPredicate debug states are never produced by the public API)",
         ]),
     );
+    ctx.set("strict_mode_C32_STRICT", json!(strict()));
     ctx.set("letters", json!(LETTERS));
     ctx.set("gas_limit", json!(GAS_LIMIT));
     ctx.set(
